@@ -76,10 +76,10 @@ def tables(seed):
     }
 
 
-def build_system(T, with_vel=True):
+def build_system(T, with_vel=True, reps=2):
     from gaddlemaps.components import System
     recs = []
-    for rep in range(2):               # two instances of the species in the file
+    for rep in range(reps):            # two instances of the species in the file (one: a species that occurs once)
         for i, (an, rn, ri) in enumerate(ATOMS):
             recs.append((ri + 3 * rep, rn, an, i + 1 + N * rep, T['pos'][i] + rep * 2.0,
                          T['vel'][i] if with_vel else None))
@@ -195,13 +195,13 @@ class C18(Check):
                    'Residue objects reached through Molecule.residues are not claimed to be views (not in the statement)']
 
     KINDS = ('mol_copy', 'mol_deep', 'mol_align_start', 'mol_align_end', 'mol_align_restart', 'mol_align_reend',
-             'mol_system_index', 'mol_system_iter', 'mol_novel', 'residue', 'atom')
+             'mol_system_index', 'mol_system_iter', 'mol_system_single', 'mol_novel', 'residue', 'atom')
 
     def units(self, tier, seed):
         deep_kinds = ('mol_copy', 'mol_deep', 'residue', 'atom') if tier == 'thorough' else ()
         # quick tier: the object kinds that differ from 'mol_align_end' only in how the pair was produced are
         # explored to depth 2 (every ordered pair of events), the others to depth 3; thorough: 3 and 4
-        shallow = ('mol_novel', 'mol_align_start', 'mol_align_reend', 'mol_align_restart') if tier != 'thorough' else ()
+        shallow = ('mol_novel', 'mol_align_start', 'mol_align_reend', 'mol_align_restart', 'mol_system_single') if tier != 'thorough' else ()
         self.bounds = {'depth': 3, 'depth_for': dict({k: 4 for k in deep_kinds}, **{k: 2 for k in shallow}),
                        'de_bruijn_order': 2, 'kinds': list(self.KINDS)}
         u = []
@@ -247,7 +247,7 @@ class C18(Check):
         st.kind = kind
         st.T = T
         with_vel = kind != 'mol_novel'
-        st.syst = build_system(T, with_vel)
+        st.syst = build_system(T, with_vel, 1 if kind == 'mol_system_single' else 2)
         vel0 = [T['vel'][i] if with_vel else None for i in range(N)]
         full = Model(T['pos'], vel0, list(range(1, N + 1)), [a[2] for a in ATOMS],
                      [a[1] for a in ATOMS], [a[0] for a in ATOMS])
@@ -296,7 +296,7 @@ class C18(Check):
             st.keep = Alignment(start=st.syst[1], end=st.syst[1])
             st.keep.end = st.orig
             st.copy = st.keep.end
-        elif k == 'mol_system_index':
+        elif k in ('mol_system_index', 'mol_system_single'):
             st.copy = st.syst[0]
             st.m_orig = st.m_orig if st.orig is not None else st.m_orig
         elif k == 'mol_system_iter':
